@@ -181,6 +181,15 @@ async fn alias2(_: &mut Zw, x: String) -> Fallible {
     log(format!("alias2|{x}"));
     if x == "ok" { Ok(()) } else { Err(format!("returned err {x}").into()) }
 }
+// literals that begin with `^` / end with `$` themselves: still anchored on both sides
+#[given("I have 10$")]
+fn dollar(_: &mut Zw) {
+    log("dollar".to_owned());
+}
+#[when("^caret first")]
+fn caret(_: &mut Zw) {
+    log("caret".to_owned());
+}
 // a second World: its own registry
 #[given(regex = r"^(\d+) and (\w+)$")]
 fn two2(_: &mut Zw2, a: u32, b: String) {
